@@ -30,6 +30,18 @@ def num_spelling(a, rnd):
 def str_spelling(cps_, rnd):
     s = A.uncps(cps_)
     q = '"' if (rnd is not None and rnd.random() < 0.5) else "'"
+    if rnd is not None and rnd.random() < 0.5:
+        # only \\ and \<own quote> are escapes: a backslash before anything else (the OTHER quote included) may stand alone
+        out = ''
+        for i, ch in enumerate(s):
+            nxt = s[i + 1] if i + 1 < len(s) else ''
+            if ch == '\\':
+                out += '\\' if nxt not in ('\\', q, '') else '\\\\'
+            elif ch == q:
+                out += '\\' + q
+            else:
+                out += ch
+        return q + out + q
     return q + s.replace('\\', '\\\\').replace(q, '\\' + q) + q
 
 
@@ -79,7 +91,7 @@ def rand_operand(rnd, depth):
         if c < 0.35:
             return {'k': 'num', 'v': A.anum(rnd.choice([0, 1, 2, 7, 10, 100, 1500, 0.5, 2.25]))}
         if c < 0.6:
-            return {'k': 'str', 'v': A.cps(rnd.choice(['', 'a', 'it\'s', 'q"q', 'b\\s', 'a b', '(', '1+2', "\\'"]))}
+            return {'k': 'str', 'v': A.cps(rnd.choice(['', 'a', 'it\'s', 'q"q', 'b\\s', 'a b', '(', '1+2', "\\'", 'say \\"hi\\"', "it\\'s", 'x\\n']))}
         return {'k': 'var', 'v': rnd.choice(['x', 'yy', 'a_1', 'with space', 'br]ack', 'null', 'true', 'if'])}
     if r < 0.5:
         return {'k': 'grp', 'e': rand_flat(rnd, depth - 1)}
